@@ -9,8 +9,8 @@ var repoFrame = regexp.MustCompile(`github\.com/zenon-network/go-zenon/[\w/\-\.]
 
 // topRepoFrame extracts the first go-zenon function after the panic line of a goroutine dump.
 func topRepoFrame(tail string) string {
-	i := strings.LastIndex(tail, "panic:")
-	if j := strings.LastIndex(tail, "fatal error:"); j > i {
+	i := strings.Index(tail, "panic:")
+	if j := strings.Index(tail, "fatal error:"); j >= 0 && (i < 0 || j < i) {
 		i = j
 	}
 	if i < 0 {
